@@ -31,6 +31,16 @@ theorem uint64_sum_toNat (l : List UInt64) (acc : UInt64) :
     rw [List.foldl_cons, ih, UInt64.toNat_add, List.map_cons, List.sum_cons]
     omega
 
+theorem find_some_iff_contains (l : List Nat) (x : Nat) : (l.find? (fun a => x == a)).isSome = l.contains x := by
+  induction l with
+  | nil => simp
+  | cons a as ih =>
+    simp only [List.find?_cons, List.contains_cons]
+    by_cases h : x = a
+    · simp [h]
+    · have : (x == a) = false := by simp [h]
+      simp [this, ih]
+
 /-- the translator's verdict for one configured function -/
 def translated (key : String) : Bool := Paloma.Gen.Translated.status.any fun s => s.1 == key && s.2 == "ok"
 
